@@ -236,6 +236,30 @@ Theorem C12_scan_guards_present :
 Proof. exact (conj guards_present_archive_write guards_present_line_split). Qed.
 Print Assumptions C12_scan_guards_present.
 
+(* TWO peer numbers that bound each other.  The upper bound in front of recvPrefixHash's make is
+   a constant of the code (read as a value from the guard itself), compared with the variable
+   make receives, and equal to kPrefixHashStep ... *)
+Theorem C12_hash_step_bound_is_const :
+  Consts.guards_hash_step_bound_const = true /\ Consts.guards_hash_step_bound_on_make_arg = true /\
+  Consts.guards_hash_step_bound = Consts.guards_hash_step.
+Proof. exact guards_hash_step_bound_is_const. Qed.
+Print Assumptions C12_hash_step_bound_is_const.
+
+(* ... so the amount is bounded for EVERY announced size and step, consistent with each other or not *)
+Theorem C12_hash_pair_bounded : forall size ms hs,
+  gd_hash_guard2 false Consts.guards_hash_step_bound size ms hs = true -> 0 < hs - ms <= Consts.guards_hash_step.
+Proof. exact hash_guard2_const_bounded. Qed.
+Print Assumptions C12_hash_pair_bounded.
+
+(* ... whereas a guard that compares the announced step with the announced size accepts every
+   consistent pair: size = step = n for all n > 0 (2^62 in particular) *)
+Theorem C12_hash_bound_by_peer_size_refuted :
+  (forall n, 0 < n -> gd_hash_guard2 true Consts.guards_hash_step_bound n 0 n = true) /\
+  gd_hash_guard2 true Consts.guards_hash_step_bound (2 ^ 62) 0 (2 ^ 62) = true /\ 2 ^ 62 > Consts.guards_hash_step /\
+  gd_hash_guard2 false Consts.guards_hash_step_bound (2 ^ 62) 0 (2 ^ 62) = false.
+Proof. exact (conj hash_guard2_by_size_refuted hash_guard2_by_size_witness). Qed.
+Print Assumptions C12_hash_bound_by_peer_size_refuted.
+
 (* the code before the fixes violates the bound: the confirmed inputs *)
 Theorem C12_data_unfixed_refuted : exists c n, cfg_ok c = true /\ guard_unfixed FDataSizeV2 c 0 n = true /\
   amount_unfixed FDataSizeV2 c 0 n > bound FDataSizeV2 c /\
